@@ -414,7 +414,7 @@ Proof.
   - cbn [fst]. speel SFb_set_running. speel SFb_park. destruct inc; [apply SFb_upd_self|apply SFb_refl].
   - destruct k as [| |c].
     + apply SFb_ret.
-    + destruct inc; [apply SFb_ret|sby_eq].
+    + destruct inc; [apply SFb_ret|]. destruct (ckif_spins _ _ _); [sby_eq|apply SFb_ret].
     + pose proof (SFb_scope_exit n m t En s c inc) as H. destruct (scope_exit s c t inc) as [s1 x]. cbn [fst] in H.
       destruct x; speel SFb_ret; exact H.
   - speel SFb_ret. apply SFb_kstar, ks_one, kp_tcancel.
